@@ -6,6 +6,8 @@ import (
 	"math/big"
 	"strings"
 
+	tmed "github.com/cometbft/cometbft/crypto/ed25519"
+	cryptocodec "github.com/cosmos/cosmos-sdk/crypto/codec"
 	sdk "github.com/cosmos/cosmos-sdk/types"
 	distrtypes "github.com/cosmos/cosmos-sdk/x/distribution/types"
 	stakingtypes "github.com/cosmos/cosmos-sdk/x/staking/types"
@@ -52,6 +54,14 @@ func (c16) Configure(r *e.RNG, tier string) e.Config {
 	// fees are zero, so staking rewards (and everything that pays them out as a
 	// side effect) exist only when coinomics mints
 	c.Coinomics = r.Chance(0.7)
+	// slash_bias: frequent double-sign evidence with long unbonding times, so that
+	// unbonding and redelegation entries are slashed while they are still pending
+	if r.Chance(0.3) {
+		c.Flags["slash_bias"] = 1
+		c.Flags["p_evidence"] = r.Range(15, 35)
+		c.UnbondingSecs = []int64{3600, 1_814_400}[r.Intn(2)]
+		c.SlashDoubleSign = "0.5"
+	}
 	return c
 }
 
@@ -132,6 +142,19 @@ func (c16) Gen(w *e.World, r *e.RNG) e.Step {
 		default:
 			pc.Val = -1
 		}
+		if r.Chance(0.08) {
+			// becoming a validator, preferably as an account whose coins are partly unvested
+			pc = &PCall{PC: "staking", M: "createValidator"}
+			if va := vestingAccts(w); len(va) > 0 && r.Chance(0.7) {
+				owner = va[r.Intn(len(va))]
+			}
+			bal := w.Balance(w.Acct(owner).Acc)
+			pc.Amt = r.Amount(bal).String()
+			if r.Chance(0.3) {
+				pc.Amt = bal.String()
+			}
+			pc.Who = fmt.Sprintf("acct:%d", owner)
+		}
 		raw, _ := json.Marshal(pc)
 		return e.Step{K: "diff", A: owner, P: raw}
 	case 3:
@@ -193,7 +216,21 @@ func (c16) Gen(w *e.World, r *e.RNG) e.Step {
 				pc.PC, pc.M = "distribution", "validatorOutstandingRewards"
 			}
 		}
-		if ds := delegations(w); len(ds) > 0 && r.Chance(0.6) && pc.M != "redelegation" && pc.M != "validators" {
+		if pc.M == "unbondingDelegation" && r.Chance(0.8) {
+			// somebody who is unbonding right now (slashed entries differ from their initial balance)
+			for _, i := range r.Perm(len(w.Accts) + e.NExtra) {
+				if ubds := w.App().StakingKeeper.GetUnbondingDelegations(w.Ctx(), w.Acct(i).Acc, 3); len(ubds) > 0 {
+					u := ubds[r.Intn(len(ubds))]
+					pc.Who = fmt.Sprintf("acct:%d", i)
+					for vi, v := range w.Vals {
+						if v.ValAddr.String() == u.ValidatorAddress {
+							pc.Val = vi
+						}
+					}
+					break
+				}
+			}
+		} else if ds := delegations(w); len(ds) > 0 && r.Chance(0.6) && pc.M != "redelegation" && pc.M != "validators" {
 			d := ds[r.Intn(len(ds))]
 			pc.Who, pc.Val = fmt.Sprintf("acct:%d", d.a), int(d.val)
 		}
@@ -229,6 +266,19 @@ func nativeMsgs(w *e.World, c *PCall, owner *e.Account) ([]sdk.Msg, bool) {
 		return []sdk.Msg{stakingtypes.NewMsgBeginRedelegate(owner.Acc, valAddrOf(w, c.Val), valAddrOf(w, c.Val2), amt)}, true
 	case "staking.cancelUnbondingDelegation":
 		return []sdk.Msg{stakingtypes.NewMsgCancelUnbondingDelegation(owner.Acc, valAddrOf(w, c.Val), c.Height, amt)}, true
+	case "staking.createValidator":
+		// the same validator the precompile call describes (evmworld.go packPCall)
+		pk := tmed.GenPrivKeyFromSecret(append([]byte("haqqsim-new-validator"), owner.Eth.Bytes()...)).PubKey()
+		sdkPk, err := cryptocodec.FromTmPubKeyInterface(pk)
+		if err != nil {
+			return nil, false
+		}
+		m, err := stakingtypes.NewMsgCreateValidator(sdk.ValAddress(owner.Acc), sdkPk, amt, stakingtypes.Description{Moniker: "sim-" + c.Who},
+			stakingtypes.NewCommissionRates(sdk.NewDecWithPrec(1, 1), sdk.NewDecWithPrec(2, 1), sdk.NewDecWithPrec(1, 2)), sdk.OneInt())
+		if err != nil {
+			return nil, false
+		}
+		return []sdk.Msg{m}, true
 	case "distribution.withdrawDelegatorRewards":
 		return []sdk.Msg{distrtypes.NewMsgWithdrawDelegatorReward(owner.Acc, valAddrOf(w, c.Val))}, true
 	case "distribution.setWithdrawAddress":
@@ -253,7 +303,7 @@ func (p c16) Exec(w *e.World, st *e.Step) *e.Violation {
 		return p.query(w, st)
 	case "diff":
 		var pc PCall
-		if json.Unmarshal(st.P, &pc) != nil || st.A >= len(w.Accts) {
+		if json.Unmarshal(st.P, &pc) != nil || st.A >= len(w.Accts)+e.NExtra {
 			return nil
 		}
 		owner := w.Acct(st.A)
